@@ -8,6 +8,7 @@ package main
 // (no fixed sleeps), then prints result / state view / notifications.
 
 import (
+	"bufio"
 	"bytes"
 	"fmt"
 	"net"
@@ -72,6 +73,8 @@ type admAttempt struct {
 	conn   net.Conn
 	key    string
 	sess   *rtmp.PullSession
+	rtsp   bool              // the pull url is rtsp://
+	rsess  *rtsp.PullSession // attached RTSP pull session
 	origin *rtmp.ServerSession
 	odone  chan struct{}
 }
@@ -96,6 +99,7 @@ type admCase struct {
 	static    *admListener
 	att       map[string]*admAttempt // stream -> outstanding attempt
 	attCount  map[string]int
+	rtspUrl   map[string]bool // stream -> the group's pull url is rtsp:// (set by the last start_relay_pull)
 	attByName map[string]*admAttempt
 	pushLns   []*admListener
 	push      map[string]*admPush // stream|target index
@@ -198,7 +202,7 @@ func newAdmCase(cfg map[string]string) (*admCase, error) {
 	httpts.SubSessionWriteChanSize = 0
 	c := &admCase{
 		nh: &admNotify{}, sess: map[string]*admSess{}, keyName: map[string]string{}, pipes: map[string]int{},
-		lns: map[string]*admListener{}, att: map[string]*admAttempt{}, attCount: map[string]int{},
+		lns: map[string]*admListener{}, att: map[string]*admAttempt{}, attCount: map[string]int{}, rtspUrl: map[string]bool{},
 		attByName: map[string]*admAttempt{}, push: map[string]*admPush{},
 	}
 	static := ""
@@ -389,18 +393,21 @@ func (c *admCase) settle() {
 			c.attCount[st]++
 			na := &admAttempt{name: fmt.Sprintf("p%s_%d", strings.TrimPrefix(st, "s"), c.attCount[st]), stream: st, state: "held"}
 			// the pull dials the URL of the last start_relay_pull for this stream, or the static origin
-			conn, ok := admWaitAny(c.lns[st], c.static)
+			conn, first, ok := admWaitAny(c.lns[st], c.static)
 			if !ok {
 				c.anomalies = append(c.anomalies, "attempt-never-connected")
 				na.state = "finished"
 			} else {
 				na.conn = conn
+				// the url of the last start_relay_pull decides the protocol; the static origin is rtmp
+				na.rtsp = first && c.rtspUrl[st]
 			}
 			c.att[st] = na
 			c.attByName[na.name] = na
 			a = na
 		}
-		if a != nil && a.state == "attached" && a.sess != nil && a.sess.VerifIsClosed() {
+		if a != nil && a.state == "attached" &&
+			((a.sess != nil && a.sess.VerifIsClosed()) || (a.rsess != nil && a.rsess.VerifIsClosed())) {
 			from := c.nseen
 			c.waitPullStop(a, from)
 		}
@@ -512,8 +519,8 @@ func (c *admCase) render() string {
 			}
 		}
 		// learn keys of pull sessions that are attached
-		if a := c.att[v.StreamName]; a != nil && v.RtmpPull != "" && a.key == "" && a.state != "finished" {
-			a.key = v.RtmpPull
+		if a := c.att[v.StreamName]; a != nil && v.RtmpPull+v.RtspPull != "" && a.key == "" && a.state != "finished" {
+			a.key = v.RtmpPull + v.RtspPull
 			c.keyName[a.key] = a.name
 		}
 		pipe := "-"
@@ -821,14 +828,20 @@ func (c *admCase) doOp(op string) string {
 		return strconv.Itoa(resp.ErrorCode)
 	case "spull": // start_relay_pull: spull.<stream>.<retry>.<autostop ms>  (retry / autostop may be negative: n1 = -1)
 		l := c.originListener(stream(1))
-		req := base.ApiCtrlStartRelayPullReq{Url: "rtmp://" + l.addr() + "/live/" + stream(1), StreamName: stream(1),
-			PullTimeoutMs: 30000, PullRetryNum: admInt(f[2]), AutoStopPullAfterNoOutMs: admInt(f[3])}
+		isRtsp := len(f) > 4 && f[4] == "rtsp" // spull.<stream>.<retry>.<autostop>.rtsp: an rtsp:// url (interleaved)
+		scheme := "rtmp://"
+		if isRtsp {
+			scheme = "rtsp://"
+		}
+		req := base.ApiCtrlStartRelayPullReq{Url: scheme + l.addr() + "/live/" + stream(1), StreamName: stream(1),
+			PullTimeoutMs: 30000, PullRetryNum: admInt(f[2]), AutoStopPullAfterNoOutMs: admInt(f[3]), RtspMode: base.RtspModeTcp}
 		resp := c.sm.CtrlStartRelayPull(req)
+		c.rtspUrl[stream(1)] = isRtsp // StartPull stores the url whether or not an attempt starts
 		if resp.ErrorCode == base.ErrorCodeSucc && resp.Data.SessionId != "" {
 			// the id of the attempt just started
 			st := stream(1)
 			c.attCount[st]++
-			na := &admAttempt{name: fmt.Sprintf("p%s_%d", f[1], c.attCount[st]), stream: st, state: "held", key: resp.Data.SessionId}
+			na := &admAttempt{name: fmt.Sprintf("p%s_%d", f[1], c.attCount[st]), stream: st, state: "held", key: resp.Data.SessionId, rtsp: isRtsp}
 			c.keyName[na.key] = na.name
 			conn, ok := l.waitConn()
 			if !ok {
@@ -865,15 +878,23 @@ func (c *admCase) doOp(op string) string {
 			}
 			a.state = "released"
 			a.odone = make(chan struct{})
-			go func(conn net.Conn, done chan struct{}) {
-				defer close(done)
-				c.originSrv.VerifHandleTcpConnect(conn)
-			}(a.conn, a.odone)
-			// the origin sees the play request
-			select {
-			case a.origin = <-c.originObs.ch:
-			case <-time.After(admWaitDur()):
-				return "timeout-origin"
+			played := make(chan struct{})
+			if a.rtsp {
+				go func(conn net.Conn, done chan struct{}) {
+					defer close(done)
+					admRtspOrigin(conn, played)
+				}(a.conn, a.odone)
+			} else {
+				go func(conn net.Conn, done chan struct{}) {
+					defer close(done)
+					c.originSrv.VerifHandleTcpConnect(conn)
+				}(a.conn, a.odone)
+				// the origin sees the play request
+				select {
+				case a.origin = <-c.originObs.ch:
+				case <-time.After(admWaitDur()):
+					return "timeout-origin"
+				}
 			}
 			ev, ok := c.nh.waitPull(from, a.stream)
 			if !ok {
@@ -885,7 +906,16 @@ func (c *admCase) doOp(op string) string {
 			}
 			if ev.kind == "RS" {
 				a.state = "attached"
-				if v, ok := c.viewOf(a.stream); ok {
+				if a.rtsp {
+					a.rsess = c.sm.VerifRtspPullSession(a.stream)
+					// AddRtspPullSession runs on the DESCRIBE answer; let SETUP and PLAY complete too
+					select {
+					case <-played:
+					case <-a.odone:
+					case <-time.After(admWaitDur()):
+						return "timeout-origin"
+					}
+				} else if v, ok := c.viewOf(a.stream); ok {
 					a.sess = v.RtmpPullSession
 				}
 			} else {
@@ -898,10 +928,14 @@ func (c *admCase) doOp(op string) string {
 			_ = a.conn.Close()
 			c.waitPullStop(a, from)
 		case "pdone":
-			if a.state != "attached" || a.origin == nil {
+			if a.state != "attached" || (a.origin == nil && !a.rtsp) {
 				return "x"
 			}
-			_ = a.origin.Dispose()
+			if a.rtsp {
+				_ = a.conn.Close()
+			} else {
+				_ = a.origin.Dispose()
+			}
 			c.waitPullStop(a, from)
 		}
 		return a.name
@@ -1039,8 +1073,9 @@ func admReason(desp string) string {
 	return strings.ReplaceAll(desp, " ", "_")
 }
 
-// admWaitAny waits for a connection on either listener (nil listeners are skipped).
-func admWaitAny(a, b *admListener) (net.Conn, bool) {
+// admWaitAny waits for a connection on either listener (nil listeners are skipped); first tells
+// whether it arrived on listener a.
+func admWaitAny(a, b *admListener) (net.Conn, bool, bool) {
 	var ca, cb chan net.Conn
 	if a != nil {
 		ca = a.pending
@@ -1049,15 +1084,68 @@ func admWaitAny(a, b *admListener) (net.Conn, bool) {
 		cb = b.pending
 	}
 	if ca == nil && cb == nil {
-		return nil, false
+		return nil, false, false
 	}
 	select {
 	case c := <-ca:
-		return c, true
+		return c, true, true
 	case c := <-cb:
-		return c, true
+		return c, false, true
 	case <-time.After(admWaitDur()):
-		return nil, false
+		return nil, false, false
+	}
+}
+
+// admRtspOrigin is the stub origin for an rtsp:// relay pull on an accepted connection: it answers
+// OPTIONS, DESCRIBE (with an SDP), SETUP (interleaved) and PLAY and then keeps the connection open
+// until it is closed from either side.  played is closed once PLAY has been answered.
+func admRtspOrigin(conn net.Conn, played chan struct{}) {
+	r := bufio.NewReader(conn)
+	done := false
+	for {
+		var method, cseq, transport string
+		first := true
+		for {
+			line, err := r.ReadString('\n')
+			if err != nil {
+				return
+			}
+			line = strings.TrimRight(line, "\r\n")
+			if line == "" {
+				if first {
+					continue
+				}
+				break
+			}
+			if first {
+				method = strings.Split(line, " ")[0]
+				first = false
+			}
+			low := strings.ToLower(line)
+			if strings.HasPrefix(low, "cseq:") {
+				cseq = strings.TrimSpace(line[5:])
+			}
+			if strings.HasPrefix(low, "transport:") {
+				transport = strings.TrimSpace(line[10:])
+			}
+		}
+		switch method {
+		case "OPTIONS":
+			fmt.Fprintf(conn, "RTSP/1.0 200 OK\r\nCSeq: %s\r\nPublic: OPTIONS, DESCRIBE, SETUP, PLAY, TEARDOWN\r\n\r\n", cseq)
+		case "DESCRIBE":
+			fmt.Fprintf(conn, "RTSP/1.0 200 OK\r\nCSeq: %s\r\nContent-Type: application/sdp\r\nContent-Length: %d\r\n\r\n%s",
+				cseq, len(admSdp), admSdp)
+		case "SETUP":
+			fmt.Fprintf(conn, "RTSP/1.0 200 OK\r\nCSeq: %s\r\nSession: 1\r\nTransport: %s\r\n\r\n", cseq, transport)
+		case "PLAY":
+			fmt.Fprintf(conn, "RTSP/1.0 200 OK\r\nCSeq: %s\r\nSession: 1\r\n\r\n", cseq)
+			if !done {
+				done = true
+				close(played)
+			}
+		default:
+			fmt.Fprintf(conn, "RTSP/1.0 200 OK\r\nCSeq: %s\r\n\r\n", cseq)
+		}
 	}
 }
 
